@@ -128,6 +128,40 @@ CHECKS = {
              '15 kinds of invalid usage, explicit xml:base, DTDs in included documents, dot-segment hrefs) are written to disk and parsed with XInclude on through XercesDOMParser and DOMLSParser; the resulting DOM '
              'and every element\'s getBaseURI() are compared with a reference XInclude 1.0 expansion; expected-fatal graphs (loops, misuse) must be reported and must terminate. In-repo XInclude documents run as sanitizer-only cases.',
         note='Trusted: the reference expansion (pyexpat trees). file: URLs only; xpointer follows the documented deviation (always reported); cases XInclude leaves implementation-defined are skipped and counted.'),
+    'C09': dict(
+        category='exploration', design_ref='DESIGN.md §4 C09',
+        technique='runtime monitoring: reference datatype model (lexical/value space, order, facets, canonical forms) + reference-free axioms + differential between the three validation routes (validator factory, XSValue, schema-validated instance with PSVI); ASan+UBSan',
+        text='About 139000 (quick) evaluations over 73000 distinct (type, literal) pairs: grammar-based literals, boundary catalogues and single-edit near misses for all built-in types, 1400 derived types with '
+             'boundary facet values, lists and unions, 24000 order triples, 20000 instance documents. Each verdict, order result and canonical form is compared with the reference model, with order/canonical-form axioms, '
+             'and between the DatatypeValidator, XSValue and parse+PSVI routes. Points XSD 1.0 leaves ambiguous are skipped and counted.',
+        note='Trusted: the reference model (python, exact arithmetic). NOTATION, anySimpleType, QName enumerations and patterns outside the regex subset shared with python re are not judged.'),
+    'C12': dict(
+        category='exploration', design_ref='DESIGN.md §4 C12',
+        technique='runtime monitoring: round-trip oracle (edit DOM, serialise with error handler, re-parse with a fresh parser, structural dump comparison + isEqualNode both ways + second serialisation) with an expected-error classifier and a per-character XMLFormatter model; pyexpat second opinion; ASan+UBSan',
+        text='About 15500 distinct trees (generated documents edited through the DOM API incl. namespace-changing edits, optionally normalizeDocument) x output encodings (UTF-8/16, ISO-8859-1, US-ASCII, EBCDIC, ICU pages) x '
+             'serializer features x targets are serialised; content that has no well-formed spelling must be reported, everything else must re-parse to an equal tree and serialise to the same bytes again; '
+             'unrepresentable characters must appear as character references; XMLFormatter is swept over every EscapeFlags x UnRepFlags pair.',
+        note='Trusted: the tree dump, the classification of inexpressible content, pyexpat for XML 1.0 output. DocumentFragment roots, serializer filters and pretty-print are not exercised.'),
+    'C13': dict(
+        category='exploration', design_ref='DESIGN.md §4 C13',
+        technique='runtime monitoring: reference DOM as oracle over generated and exhaustively enumerated operation scripts, with structural invariants and an identity-carrying dump compared after every operation; ASan+UBSan',
+        text='2000 random scripts x 200 operations plus all 42900 scripts of depth 2 over the operation alphabet (insert/replace/remove with fragments, attributes with and without namespaces, character data, '
+             'import/adopt/clone/rename/normalize, user data, release) run against XercesDOM and the reference DOM in lock step: the exception raised must be one the W3C text allows and leave the tree unchanged, '
+             'return values, invariants (sibling ring, parents, owner flags, attribute order, document element) and the tree must agree after every operation.',
+        note='Trusted: the reference DOM. Where DOM leaves a choice open (renameNode, replaceWholeText, insertBefore(x,x)) the implementation is followed or the script stops being compared (counted).'),
+    'C14': dict(
+        category='exploration', design_ref='DESIGN.md §4 C14',
+        technique='runtime monitoring: reference DOM with Range, NodeIterator, TreeWalker, live lists/maps and the ID map as oracle over scripts that keep views open across mutations; ASan+UBSan',
+        text='1500 scripts x 300 operations create ranges, iterators, tree walkers, getElementsByTagName(NS) lists, attribute maps and ID lookups, mutate the tree underneath them (every C13 operation) and query the views again: '
+             'boundary points, iterator reference nodes, list contents and lengths, getElementById results must equal the reference after every mutation; range content operations must leave the specified tree.',
+        note='Trusted: the reference model of the traversal/range semantics (DOM L2 Traversal-Range). Ranges in detached subtrees, DocumentType as range container and TreeWalker with its current node outside the root are not decided.'),
+    'C16': dict(
+        category='exploration', design_ref='DESIGN.md §4 C16',
+        technique='runtime monitoring: differential oracle between a grammar pool and its deserialize(serialize(.)) images (object-graph enumeration, XSModel enumeration, instance validation with PSVI) with stream class-name coverage accounting; ASan+UBSan',
+        text='400 (quick) / 6400 (thorough) generated grammar pools (schemas using every serialisable component kind, import/include/redefine, DTD grammars) are serialised, restored, serialised and restored again; '
+             'the enumerated object graphs (before and after use), the XSModel seen through the public API and the validation results (events, error codes and positions, PSVI) of valid and mutated instances must be identical for the '
+             'original and both restored pools; a patched serialisation level must be refused with XSerializationException; all 53 nameable XSerializable classes must occur in the streams of a run.',
+        note='Trusted: the driver enumeration of grammar internals (a field it does not print is not compared). Synthetic annotations and PSVI on locked pools are exercised by pinned witnesses only (known findings).'),
 }
 
 NOT_YET = 'check not built yet (work in progress; see DESIGN.md section 9 build order)'
